@@ -18,6 +18,12 @@ from .model import AnalysisError, Func, unparse
 from .oblig import get_contracts, interp, time_period_field_instances
 
 F53 = 2**53
+ROUNDING_HELPERS = {"_csharp_compatibility._csharp_modulo", "_csharp_compatibility.__int_overflow", "_csharp_compatibility._int32_overflow", "_csharp_compatibility._int64_overflow"}
+
+# float-valued calls that are reviewed and exempt, one symbol wide, with the reason
+FLOAT_CALL_EXEMPT = {
+    ("Offset.from_timedelta", "total_seconds"): "result is range-checked to +/-18h and truncated to whole seconds; whole-second values below 2**53 microseconds are exact in float",
+}
 
 
 def _returns_float(ctx: Ctx, f: Func) -> bool:
@@ -52,6 +58,8 @@ def check_numeric(ctx: Ctx, rr: RuleResult, modules: Iterable[str], decoder_exem
     for f in M.funcs.values():
         if f.mod.rel not in mods or isinstance(f.node, ast.Lambda):
             continue
+        if f.qual in ROUNDING_HELPERS:
+            continue  # the helpers that implement the rounding modes themselves
         if f.cls is not None and f.cls.name == "_TimePeriodField":
             tpf_methods.add(f)
             continue
@@ -78,6 +86,9 @@ def check_numeric(ctx: Ctx, rr: RuleResult, modules: Iterable[str], decoder_exem
                     return
                 note(fn, e, type(e.op).__name__, a, b, _label)
 
+        def on_call(c: ast.Call, callee: Func, bound: dict, st: State, fn: Func) -> None:
+            pass
+
         def on_builtin(c: ast.Call, args: list[AV], st: State, fn: Func, _label: str = label) -> None:
             n = c.func.id  # type: ignore[union-attr]
             if n == "float" and args:
@@ -89,12 +100,31 @@ def check_numeric(ctx: Ctx, rr: RuleResult, modules: Iterable[str], decoder_exem
         I.on_builtin = on_builtin
         I.analyse(f, label=label, self_obj=inst)
         rr.states += I.steps
+    # float-producing library calls on exact quantities (timedelta.total_seconds(), math.*): syntactic inventory
+    for f, label, inst in entries:
+        pass
+    for f in sorted((x for x in M.funcs.values() if x.mod.rel in mods and not isinstance(x.node, ast.Lambda)), key=lambda x: x.qual):
+        for n in own_nodes(f.node):
+            if isinstance(n, ast.Call) and isinstance(n.func, ast.Attribute):
+                is_ts = n.func.attr == "total_seconds" and not n.args
+                is_math = isinstance(n.func.value, ast.Name) and n.func.value.id == "math" and n.func.attr not in ("isnan", "isinf", "isfinite")
+                if is_ts or is_math:
+                    k = (f.mod.rel, n.lineno, n.col_offset)
+                    sites[k] = {"fn": f, "node": n, "kind": "floatcall", "a": None, "b": None, "contexts": {f.qual}}
     for k in sorted(sites):
         s = sites[k]
         fn, node, kind, a, b = s["fn"], s["node"], s["kind"], s["a"], s["b"]
         rr.inst()
         where = fn.qual
         txt = unparse(node)[:80]
+        if kind == "floatcall":
+            if _returns_float(ctx, fn):
+                rr.ok({"site": where, "op": txt, "why": "documented float API"})
+            elif (where, node.func.attr) in FLOAT_CALL_EXEMPT:
+                rr.ok({"site": where, "op": txt, "why": FLOAT_CALL_EXEMPT[(where, node.func.attr)]})
+            else:
+                rr.fail(where, f"float-valued library call in an exact integer conversion: `{txt}` (precision is lost beyond 2**53 units)", f"{fn.mod.rel}:{node.lineno}", rule_clause="float discipline")
+            continue
         if kind in ("Div", "float"):
             if _returns_float(ctx, fn):
                 rr.ok({"site": where, "op": txt, "why": "documented float API (return annotation includes float)"})
